@@ -18,6 +18,9 @@ pub struct ClientArgs {
     pub mode: u8,
     /// None: run with -z (UTC). Some(tz): run WITHOUT -z under this TZ (local-time output path)
     pub local_tz: Option<String>,
+    /// further documented options, as a bit set: 1 = -d (text dump on stderr), 2 = -o <file> (requests also written to
+    /// a file), 4 = -O <file> (responses also written to a file)
+    pub opts: u8,
 }
 
 #[derive(Debug, Clone)]
@@ -91,6 +94,18 @@ pub fn run_client(args: &ClientArgs, mut respond: impl FnMut(&[Vec<u8>]) -> Vec<
             cmd.arg("-j");
         }
         _ => {}
+    }
+    let scratch = if args.opts & 6 != 0 { Some(crate::proclab::scratch_dir("cli")) } else { None };
+    if args.opts & 1 != 0 {
+        cmd.arg("-d");
+    }
+    if let Some(d) = &scratch {
+        if args.opts & 2 != 0 {
+            cmd.arg("-o").arg(d.join("requests.bin"));
+        }
+        if args.opts & 4 != 0 {
+            cmd.arg("-O").arg(d.join("responses.bin"));
+        }
     }
     cmd.arg("127.0.0.1").arg(port.to_string());
     cmd.env("RUST_BACKTRACE", "0").env("TZ", args.local_tz.as_deref().unwrap_or("UTC")).stdin(Stdio::null()).stdout(Stdio::piped()).stderr(Stdio::piped());
@@ -167,6 +182,9 @@ pub fn run_client(args: &ClientArgs, mut respond: impl FnMut(&[Vec<u8>]) -> Vec<
     };
     let stdout = t_out.join().unwrap_or_default();
     let stderr = t_err.join().unwrap_or_default();
+    if let Some(d) = &scratch {
+        let _ = std::fs::remove_dir_all(d);
+    }
     match status {
         None => Err(LabErr::Harness("client did not exit within 15 s (watchdog)".into())),
         Some(st) => Ok(ClientRun { exit: st.code().or(Some(-1)), stdout, stderr, requests, wall: start.elapsed() }),
